@@ -149,10 +149,19 @@ def discharge_overflow(A, bb, op, a, b, ty):
         sa, sb = G.strip(a), G.strip(b)
         if sa[0] == "max" and (G.strip(sa[1]) == sb or G.strip(sa[2]) == sb):
             return "R2 max(x, y) - y: the minuend is at least y by construction"
+        if sb[0] == "bin" and sb[1] in ("Mul", "MulUnchecked"):
+            for q, d in ((G.strip(sb[2]), G.strip(sb[3])), (G.strip(sb[3]), G.strip(sb[2]))):
+                if q[0] == "bin" and q[1] == "Div" and G.strip(q[2]) == sa and G.strip(q[3]) == d:
+                    return "R2 a - (a / d) * d: the subtrahend is at most a (floor division)"
         j = G.entails(facts, ("cmp", "Ge", a, b))
         if j is not None:
             return "R2 fact a >= b: %s" % [G.show(facts[i]) for i in j[1]]
         return None
+    if op in ("Mul", "MulUnchecked"):
+        sa, sb = G.strip(a), G.strip(b)
+        for q, d in ((sa, sb), (sb, sa)):
+            if q[0] == "bin" and q[1] == "Div" and G.strip(q[3]) == d:
+                return "R3 (a / d) * d <= a: the product is at most the dividend, which is a value of the same type"
     if op in ("Add", "AddUnchecked", "Mul", "MulUnchecked") and tmax is not None:
         t = ("bin", "Add" if op.startswith("Add") else "Mul", a, b, ty)
         hi = max_of(t)
@@ -274,6 +283,12 @@ def sites_of(F, inst):
             elif path.startswith(TOTAL_PREFIXES) or path.startswith(ALLOC_PREFIXES):
                 if path == "core::slice::<impl [T]>::windows":
                     a = tb.operand(t["args"][1], at_end)
+                    try:
+                        la = G.lin(a)
+                        if la.is_const():
+                            a = ("c", la.c)         # e.g. the length of an array value
+                    except Exception:
+                        pass
                     if not (a[0] == "c" and a[1] > 0):
                         s = Site(inst, bb, "maypanic", "windows(0)", (a,), t.get("span", ""))
                         s.status, s.how = "open", "windows size not a positive constant"
@@ -391,6 +406,13 @@ def discharge_maypanic(A, bb, path, args, t):
                 rg = src[2][1]
                 if rg[0] == "aggr" and rg[1][1].endswith("::Range") and rg[2][0][0] == "c" and rg[2][1][0] == "c" and rg[2][1][1] - rg[2][0][1] == n:
                     return "slice.get(%d..%d) has exactly %d bytes" % (rg[2][0][1], rg[2][1][1], n)
+                if rg[0] == "aggr" and rg[1][1].endswith("::Range"):
+                    try:
+                        d_ = G.lin(rg[2][1]).add(G.lin(rg[2][0]), -1)
+                        if d_.is_const() and d_.c == n:
+                            return "slice.get(a..a+%d) has exactly %d bytes" % (n, n)
+                    except Exception:
+                        pass
         if a0 and a0[0] == "call" and "Layout::from_size_align" in str(a0[1]):
             return None
     if path.startswith("core::option::Option::<T>::unwrap") or path.startswith("core::option::Option::<T>::expect"):
@@ -400,6 +422,14 @@ def discharge_maypanic(A, bb, path, args, t):
                 j = G.entails(facts, ("cmp", "Ge", a0[2][0], a0[2][1]))
                 if j is not None:
                     return "checked_sub cannot fail: %s" % [G.show(facts[i]) for i in j[1]]
+    if path == "core::slice::<impl [T]>::copy_from_slice" and len(args) == 2:
+        # panics iff the two lengths differ
+        try:
+            d_ = G.lin(("len", G.strip(args[0]))).add(G.lin(("len", G.strip(args[1]))), -1)
+            if d_.is_const() and d_.c == 0:
+                return "both slices have the same length (%s)" % G.show(("len", args[0]))[:60]
+        except Exception:
+            pass
     if path == "core::slice::index::<impl core::ops::index::Index<I> for [T]>::index":
         # args: (slice, range)
         sl, rg = args[0], G.strip(args[1])
